@@ -62,7 +62,7 @@ def gen_cases(rng, tier, rnd):
             N = fa.rnfa_of(s)
             cases.append({'kind': 'nfa', 'spec': s, 'rank': rank, 'abs': hx(a), 'words': _pick_words(rng, s['Sigma'], N.accepts, 4, 5, 2)})
         elif r < 0.8:
-            a = genpda.abstract_pda(rng)
+            a = {**genpda.ambiguous_stack_pda(rng), 'keep_gamma': True} if rng.random() < 0.12 else genpda.abstract_pda(rng)
             s, rank = genfa.rename(a, rng)
             lim = rng.choice([20, 60, 200, 1000])
             maxlen = 4
